@@ -86,6 +86,13 @@ class CollisionOracle:
                                  f'exception path: {text} at {where}')
         self.err_idx = len(w.internal_errors)
         for (t, nname, lvl, msg) in w.logs[self.log_idx:]:
+            m = re.search(r'Cannot process an? (\S+) (\S+) when in state (\S+)\.', msg) if self.fifo and lvl >= 40 else None
+            if m and m.group(2) == 'response':
+                # lossless FIFO, authentic traffic only: the answer to a request of its own finds the IKE_SA in a state that cannot take it -
+                # the endpoint left the waiting state by a step the state machine does not have
+                self.log_idx = len(w.logs)
+                return self.viol('own_response_refused_by_state_machine', {'exchange': m.group(1), 'state': m.group(3)},
+                                 f'{nname}: lossless FIFO delivery, authentic traffic only: {msg}')
             if 'Error while processing an event' in msg:
                 self._r('event_error_caught_by_loop')
                 err = msg.split('Omitting it: ')[-1].split('(')[0]
@@ -356,10 +363,25 @@ def generate(seed, tier):
         sc['meta']['fifo_latency'] = L
         sc['knobs'] = {'pushback_apart': r.random() < 0.6}
     T = sc['until']
+    natural = fifo and r.random() < 0.15
+    if natural:
+        # timers left to themselves (no clock jumps, which make an endpoint probe before it rekeys): one end probes an idle IKE_SA every few
+        # seconds, the other rekeys the IKE_SA every few seconds, over a slow link: sooner or later a rekey request meets an outstanding probe
+        x, y = r.sample('AB', 2)
+        cx, cy = next(iter(sc['nodes'][x]['conf'].values())), next(iter(sc['nodes'][y]['conf'].values()))
+        cx['dpd'], cx['lifetime'] = 60, r.choice([6, 8, 11])
+        cy['dpd'], cy['lifetime'] = r.choice([3, 4]), 10000
+        for c_ in (cx, cy):
+            for p_ in c_['protect']:
+                p_['lifetime'] = 600
+        L = r.choice([0.2, 0.4, 0.6])
+        sc['fate_policy'] = {'mode': 'random', 'lat_range': [L, L]}
+        sc['meta']['fifo_latency'] = L
+        sc['meta']['natural_timers'] = True
     ra = next(iter(configs.read_conf(sc['nodes']['A']['conf']).values()))
     rb = next(iter(configs.read_conf(sc['nodes']['B']['conf']).values()))
     # forced triggers, often in tight pairs on both ends so that they collide
-    n_forced = r.randint(2, 8)
+    n_forced = r.randint(2, 8) if not natural else 0
     t = 2.0
     for _ in range(n_forced):
         t = round(r.uniform(2.0, T * 0.9), 3)
